@@ -138,6 +138,16 @@ func run(schema *sqlgen.Schema, c Case) Rec {
 	return rec
 }
 
+// safeRun turns a panic of the code under test into a record (outcome "panic") instead of a dead driver.
+func safeRun(schema *sqlgen.Schema, c Case) (r Rec) {
+	defer func() {
+		if p := recover(); p != nil {
+			r = Rec{Case: c, Encode: "panic", Decode: "skipped", Proto: "rejected", Err: fmt.Sprint(p)}
+		}
+	}()
+	return run(schema, c)
+}
+
 // Main: vh c13 -describe desc.json | vh c13 -cases cases.ndjson -out recs.ndjson
 func Main(args []string) error {
 	fs := flag.NewFlagSet("c13", flag.ContinueOnError)
@@ -168,15 +178,7 @@ func Main(args []string) error {
 		if err := dec.Decode(&c); err != nil {
 			return err
 		}
-		rec := func() (r Rec) {
-			defer func() {
-				if p := recover(); p != nil {
-					r = Rec{Case: c, Encode: "panic", Decode: "skipped", Proto: "rejected", Err: fmt.Sprint(p)}
-				}
-			}()
-			return run(schema, c)
-		}()
-		w.Write(rec)
+		w.Write(safeRun(schema, c))
 	}
 	r := rand.New(rand.NewSource(*seed))
 	for _, col := range codeczoo.Cols {
@@ -186,7 +188,7 @@ func Main(args []string) error {
 				break
 			}
 			for _, f := range col.Forms {
-				w.Write(run(schema, Case{Col: col.Name, Val: v, Form: f}))
+				w.Write(safeRun(schema, Case{Col: col.Name, Val: v, Form: f}))
 			}
 		}
 	}
